@@ -2,6 +2,7 @@ package sdl
 
 import (
 	"fmt"
+	"math"
 	"strconv"
 	"strings"
 
@@ -63,7 +64,7 @@ func (u *cpuQuantity) UnmarshalYAML(node *yaml.Node) error {
 		return errNegativeValue
 	}
 
-	*u = cpuQuantity(val)
+	*u = cpuQuantity(math.Round(val))
 
 	return nil
 }
@@ -99,7 +100,7 @@ func parseWithSuffix(sval string) (uint64, error) {
 			return 0, errNegativeValue
 		}
 
-		return uint64(val), nil
+		return uint64(math.Round(val)), nil
 	}
 
 	val, err := strconv.ParseFloat(sval, 64)
